@@ -62,6 +62,7 @@ func checkC04(p *load.Program, r *kit.Report) {
 	r.Rule("GUARD-DOM", "ProcessCoinbaseTx, ConfirmTx and AppendBlockTxIDs are dominated by (a) received count == announced txCount, (b) FinalizeMerkleProofs() root Equal header.MerkleRoot (directly or through a wrapper all of whose successes are behind it), (c) len(proofs) == len(relevant txids); HandleBlock delegates only behind requestedHash.Equal(hash of the delivered header); the node starts the handler only behind blockRequest.Equal(blockHash)", 11)
 	r.Rule("MUST-PASS", "per received tx: AddHash(txid) exactly once and the counter +1 exactly once on every path to the next iteration, txid = *tx.TxHash(); relevant txids and AddMerkleProof only behind isRelevant, before AddHash; the node closes txChannel exactly once on every exit after creating it", 2)
 	r.Rule("PAIRING", "ConfirmTx(txid, height, proof) gets blockTxIDs[i] and the tree's own merkleProofs[i] (same index), after BlockHeader/BlockHash of that proof were set from the verified header", 2)
+	r.Rule("OWNERSHIP", "the *wire.BlockHeader the node passes to the block handler (and that the downloader stores in every confirmed proof) is allocated in handleBlock for that message, never shared storage", 1)
 	r.Rule("ORDER", "coinbase → confirmations → AppendBlockTxIDs, each behind the previous success", 2)
 
 	f := fn(p, r, "GUARD-DOM", R, "BlockDownloader.handleBlock")
@@ -410,6 +411,74 @@ func checkC04(p *load.Program, r *kit.Report) {
 			}
 		}
 		r.Check(bad == "", "GUARD-DOM", "node.handleBlock/requested-only", posOf(p, nb.Blocks[0].Instrs[0]), "handler started only behind blockRequest.Equal(blockHash)", bad)
+		// OWNERSHIP: the header handed to the block handler ends up inside every proof that is
+		// confirmed (merkleProofs[i].BlockHeader = header): it must be an object allocated for this
+		// message, not storage that the next message overwrites
+		{
+			badO := "the block handler is not called with a block header"
+			var at ssa.Instruction
+			funcs := []*ssa.Function{nb}
+			funcs = append(funcs, nb.AnonFuncs...)
+			for _, g := range funcs {
+				kit.AllInstrs(g, func(in ssa.Instruction) {
+					c, ok := in.(ssa.CallInstruction)
+					if !ok || c.Common().IsInvoke() || kit.StaticCallee(c) != nil {
+						return
+					}
+					if _, isB := c.Common().Value.(*ssa.Builtin); isB {
+						return
+					}
+					for _, a := range c.Common().Args {
+						if !strings.HasSuffix(a.Type().String(), "wire.BlockHeader") {
+							continue
+						}
+						at = in
+						v := kit.Strip(a)
+						// a captured variable: the value bound by the enclosing function
+						viaCell := false
+						if u, ok := v.(*ssa.UnOp); ok && u.Op == token.MUL {
+							if _, isFV := u.X.(*ssa.FreeVar); isFV {
+								v, viaCell = u.X, true
+							}
+						}
+						if fv, ok := v.(*ssa.FreeVar); ok {
+							for i, x := range g.FreeVars {
+								if x == fv {
+									for _, ref := range *g.Referrers() {
+										if mc, ok := ref.(*ssa.MakeClosure); ok && i < len(mc.Bindings) {
+											v = kit.Strip(mc.Bindings[i])
+										}
+									}
+								}
+							}
+							if cell, ok := v.(*ssa.Alloc); ok && viaCell {
+								// the variable's cell: the value stored into it
+								n := 0
+								for _, ref := range *cell.Referrers() {
+									if st, ok := ref.(*ssa.Store); ok && st.Addr == ssa.Value(cell) {
+										n++
+										v = kit.Strip(st.Val)
+									}
+								}
+								if n != 1 {
+									v = cell
+								}
+							}
+						}
+						if al, ok := v.(*ssa.Alloc); ok && al.Parent() == nb {
+							badO = ""
+						} else {
+							badO = "the header passed to the block handler is " + describe(v) + ", not an object allocated for this message: proofs keep a pointer to it and the next block message overwrites it"
+						}
+					}
+				})
+			}
+			pos := posOf(p, nb.Blocks[0].Instrs[0])
+			if at != nil {
+				pos = posOf(p, at)
+			}
+			r.Check(badO == "", "OWNERSHIP", "node.handleBlock/fresh-header", pos, "the header given to the handler is allocated per message", badO)
+		}
 		if mk != nil {
 			var closes []ssa.Instruction
 			for _, w := range kit.DirectWrites(nb) {
